@@ -17,7 +17,7 @@ impl ContainerAttributes {
                 this.openapi = a.parse_args()?;
             }
             if a.path.get_ident().is_some_and(|i| i == "serde") {
-                this.serde = a.parse_args()?;
+                a.parse_args_with(|input: syn::parse::ParseStream| this.serde.parse_more(input))?;
             }
         }
         Ok(this)
@@ -38,7 +38,7 @@ impl FieldAttributes {
                 this.openapi = a.parse_args()?;
             }
             if a.path.get_ident().is_some_and(|i| i == "serde") {
-                this.serde = a.parse_args()?;
+                a.parse_args_with(|input: syn::parse::ParseStream| this.serde.parse_more(input))?;
             }
         }
         Ok(this)
@@ -59,7 +59,7 @@ impl VariantAttributes {
                 this.openapi = a.parse_args()?;
             }
             if a.path.get_ident().is_some_and(|i| i == "serde") {
-                this.serde = a.parse_args()?;
+                a.parse_args_with(|input: syn::parse::ParseStream| this.serde.parse_more(input))?;
             }
         }
         Ok(this)
